@@ -28,6 +28,11 @@ def _resolve(path):
 class Recorder:
     def __init__(self):
         self.fx = []
+        self.depth = 0  # >0 while inside a contracted callee: its own effects are not the caller's
+
+    def add(self, rec):
+        if self.depth == 0:
+            self.fx.append(rec)
 
 
 class Stub:
@@ -50,7 +55,9 @@ class Stub:
             if getattr(m, "native", None) is not None:
                 return m.native(self, rec, *args, **kwargs)
             if m.effect:
-                rec.fx.append((f"{ext.__name__}.{name}", self, tuple(args), dict(kwargs)))
+                rec.add((f"{ext.__name__}.{name}", self, tuple(args), dict(kwargs)))
+            for k_, v_ in getattr(m, "sets", {}).items():
+                object.__setattr__(self, k_, v_)
             rf = getattr(m, "returns_field", None)
             if rf is not None:
                 return getattr(self, rf)
@@ -161,47 +168,70 @@ def register_ext(ext):
 
 def _deepcopy_state(bindings):
     memo = {}
-    out = {}
-    for k, v in bindings.items():
-        try:
-            out[k] = copy.deepcopy(v, memo)
-        except Exception:
-            out[k] = _shallow_copy(v, memo)
-    return out
+    return {k: copy_state(v, memo) for k, v in bindings.items()}
 
 
-def _shallow_copy(v, memo):
+def copy_state(v, memo, depth=0):
+    """Explicit pre-state copier (deepcopy cannot handle futures / loops)."""
     if id(v) in memo:
         return memo[id(v)]
-    try:
-        c = object.__new__(type(v))
+    if depth > 12:
+        return v
+    if isinstance(v, asyncio.Future):
+        c = FutureView(v)
+        memo[id(v)] = c
+        return c
+    if isinstance(v, Stub):
+        c = Stub(object.__getattribute__(v, "_ext"), object.__getattribute__(v, "_rec"), {})
+        memo[id(v)] = c
+        for k, x in vars(v).items():
+            if k not in ("_ext", "_rec"):
+                object.__setattr__(c, k, copy_state(x, memo, depth + 1))
+        return c
+    if isinstance(v, dict):
+        c = type(v)() if type(v) is dict else {}
+        memo[id(v)] = c
+        for k, x in v.items():
+            c[k] = copy_state(x, memo, depth + 1)
+        if type(v) is not dict:
+            import collections
+
+            if isinstance(v, collections.defaultdict):
+                d = collections.defaultdict(v.default_factory)
+                d.update(c)
+                memo[id(v)] = d
+                return d
+        return c
+    if isinstance(v, list):
+        c = []
+        memo[id(v)] = c
+        c.extend(copy_state(x, memo, depth + 1) for x in v)
+        return c
+    if isinstance(v, tuple):
+        return tuple(copy_state(x, memo, depth + 1) for x in v)
+    if isinstance(v, set):
+        return set(v)
+    if isinstance(v, bytearray):
+        return bytearray(v)
+    mod = type(v).__module__ or ""
+    if (mod.startswith("bellows") or mod.startswith("zigpy")) and hasattr(v, "__dict__") and not isinstance(v, type) \
+            and not isinstance(v, (int, bytes, str)):
+        import dataclasses as _dc
+
+        if _dc.is_dataclass(v) and getattr(type(v), "__dataclass_params__").frozen:
+            return v
+        try:
+            c = object.__new__(type(v))
+        except TypeError:
+            return v
         memo[id(v)] = c
         for k, x in vars(v).items():
             try:
-                object.__setattr__(c, k, copy.deepcopy(x, memo))
+                object.__setattr__(c, k, copy_state(x, memo, depth + 1))
             except Exception:
-                object.__setattr__(c, k, x)
+                pass
         return c
-    except Exception:
-        return v
-
-
-def _copy_stub(self, memo):
-    c = Stub(object.__getattribute__(self, "_ext"), object.__getattribute__(self, "_rec"), {})
-    memo[id(self)] = c
-    for k, v in vars(self).items():
-        if k in ("_ext", "_rec"):
-            continue
-        object.__setattr__(c, k, copy.deepcopy(v, memo))
-    return c
-
-
-Stub.__deepcopy__ = _copy_stub
-
-
-def _future_deepcopy(self, memo):
-    # futures are compared by identity and state; keep a frozen view
-    return FutureView(self)
+    return v
 
 
 class FutureView:
@@ -209,6 +239,21 @@ class FutureView:
         self._done = fut.done()
         self._cancelled = fut.cancelled()
         self._fut = fut
+        self._exc = fut.exception() if self._done and not self._cancelled else None
+        self._res = fut.result() if self._done and not self._cancelled and self._exc is None else None
+
+    def state(self):
+        if not self._done:
+            return 0
+        if self._cancelled:
+            return 3
+        return 2 if self._exc is not None else 1
+
+    def result_value(self):
+        return self._res
+
+    def exc_value(self):
+        return self._exc
 
     def done(self):
         return self._done
@@ -244,12 +289,22 @@ class wrap_callees:
             def make(raw, name):
                 if asyncio.iscoroutinefunction(raw):
                     async def w(self_, *a, **k):
-                        rec.fx.append((name, self_, tuple(a), dict(k)))
-                        return await raw(self_, *a, **k)
+                        rec.depth += 1
+                        try:
+                            r = await raw(self_, *a, **k)
+                        finally:
+                            rec.depth -= 1
+                        rec.add((name, self_, tuple(a), dict(k)))
+                        return r
                 else:
                     def w(self_, *a, **k):
-                        rec.fx.append((name, self_, tuple(a), dict(k)))
-                        return raw(self_, *a, **k)
+                        rec.depth += 1
+                        try:
+                            r = raw(self_, *a, **k)
+                        finally:
+                            rec.depth -= 1
+                        rec.add((name, self_, tuple(a), dict(k)))
+                        return r
                 w.__wrapped_raw__ = raw
                 return w
 
@@ -317,7 +372,7 @@ def judge(con: Contract, bindings, old_bindings, result, raised, fx, only=None):
         allowed = {p.split(".", 1)[1] for p in con.modifies_ if p.startswith("self.")}
         new, old = bindings["self"], old_bindings["self"]
         for fld in sorted(set(vars(old)) | set(vars(new))):
-            if fld in allowed:
+            if fld in allowed or fld + ".*" in allowed:
                 continue
             full = f"{qn}::frame.{fld}"
             if only is not None and full not in only:
@@ -352,7 +407,13 @@ def run_native(con: Contract, inputs, only=None, awaits=None):
     old_bindings = _deepcopy_state(bindings)
     # FutureView for futures inside old state
     result, raised = None, None
-    args = dict(bindings)
+    import inspect
+
+    try:
+        real_params = set(inspect.signature(raw).parameters)
+    except (TypeError, ValueError):
+        real_params = None
+    args = {k: v for k, v in bindings.items() if real_params is None or k in real_params or k == "self"}
     self_obj = args.pop("self", None)
     cls_arg = args.pop("cls", None) if isinstance(fn, types.MethodType) else None
     try:
@@ -386,24 +447,3 @@ def _invoke(f, pos, kwargs, builder, awaits):
     return f(*pos, **kwargs)
 
 
-copyreg_installed = False
-
-
-def install_future_copy():
-    global copyreg_installed
-    if copyreg_installed:
-        return
-    import copyreg
-
-    def reduce_future(f):
-        return (FutureView, (f,))
-
-    try:
-        copyreg.pickle(asyncio.Future, reduce_future)
-        copyreg.pickle(type(asyncio.new_event_loop().create_future()), reduce_future)
-    except Exception:
-        pass
-    copyreg_installed = True
-
-
-install_future_copy()
